@@ -215,7 +215,9 @@ unsigned int scan_ulong_sat(s,u) char *s; unsigned long *u;
 int msgno(arg) char *arg;
 {
   unsigned long u;
-  if (!scan_ulong_sat(arg,&u)) { err_syntax(); return -1; }
+  unsigned int len;
+  len = scan_ulong_sat(arg,&u);
+  if (!len || (arg[len] && arg[len] != ' ')) { err_syntax(); return -1; }
   if (!u) { err_nozero(); return -1; }
   --u;
   if (u >= numm || u >= INT_MAX) { err_toobig(); return -1; }
